@@ -47,6 +47,7 @@ static inline std::string show(std::string const& s)
 static inline void check(Obl& o, bool ok, std::string const& input) { o.evals++; if (!ok && !o.failed) { o.failed = true; o.first = show(input); } }
 static inline void report(Obl const& o)
 {
+  alarm(0);   // the enumeration is over: the watchdog guards cases, not the teardown of the process
   printf("OBL %s %s %ld %s %s | %s | %s\n", o.name.c_str(), o.failed ? "FAILURE" : "SUCCESS", o.evals, o.tag.empty() ? "-" : o.tag.c_str(),
          o.known.empty() ? "-" : o.known.c_str(), o.clause.c_str(), o.failed ? o.first.c_str() : "-");
 }
